@@ -138,7 +138,7 @@ def _kernel_cases(tier):
                     skipped += 1
                     continue
                 for order in ("sorted", "unsorted") if n > 1 else ("sorted",):
-                    for v in range(nvals if (order == "sorted" or tier == "thorough") else 1):
+                    for v in range(nvals if order == "sorted" else nvals - 1):
                         out.append({"kind": "kernel", "kernel": kern, "supports": list(idx), "order": order, "values": v, "tier": tier})
     return out, skipped
 
@@ -911,7 +911,7 @@ def _run_kernel(case, r):
         except Exception as e:
             r.fail(cell, "every subset of updatable parameters can be addressed", dofs=dofs, exception=f"{type(e).__name__}: {e}")
             continue
-        compare(cell, cell, model, new_kern if with_kernel else kern, sup, new_vals if with_values else vals, (2, 3) if thorough else (2,), 1 if thorough else 0, dofs=dofs, start_kernel=kern, start_values=vals)
+        compare(cell, cell, model, new_kern if with_kernel else kern, sup, new_vals if with_values else vals, (2, 3) if thorough else (2,), 0, dofs=dofs, start_kernel=kern, start_values=vals)
     r.outcome(("kernel", case, np.round(w, 4).tolist()))
 
 
